@@ -4,7 +4,8 @@ Repls == { <<"1">>, <<"BC">>, <<"AB">>, <<"AB", "+", "BC">> }
 \* the last two replacement texts contain backslashes (an escaped tab inside a string, a doubled backslash)
 \* ... and one is a string with two consecutive blanks inside (the replacement text is what was written, blank for blank)
 ReplsWide == Repls \cup { <<"2">>, <<"ABC">>, <<"XAB">>, <<"(", "BC", "*", "2", ")">>, <<"\"x\\ty\"">>, <<"'\\\\'">>, <<"\"a  b\"">> }
-Uses == { U(<<"AB">>), U(<<"ABC", "+", "AB">>), U(<<"XAB", "+", "BC">>), U(<<"AB", "+", "BC", "+", "ABC">>) }
+\* "ab" is an identifier that differs from the symbol AB only in letter case: it is not the symbol
+Uses == { U(<<"AB", "+", "ab">>), U(<<"AB">>), U(<<"ABC", "+", "AB">>), U(<<"XAB", "+", "BC">>), U(<<"AB", "+", "BC", "+", "ABC">>) }
 LinesCore == { D(n, r) : n \in {"AB", "BC", "ABC"}, r \in Repls } \cup Uses
 LinesWide == { D(n, r) : n \in {"AB", "BC", "ABC", "XAB"}, r \in ReplsWide } \cup Uses \cup { U(<<"BC", "*", "XAB">>) }
 NoDefs == <<>>
